@@ -223,3 +223,20 @@ def register(add):
         "layout and the newest tables; command bodies via the repository's schema tables.",
         "DESIGN.md 3/C09",
     )
+    add(
+        "C10",
+        "fault_enumeration",
+        "crash-point injection over every wire event of a scripted workload on the full real stack in virtual time, incl. crash points aligned with the host's own timers; bounded-termination, reset-request and silence monitors",
+        "Wire mode (real EZSP, uart.connect, Gateway, AshProtocol; fake serial; FIFO line; independent NCP ASH "
+        "endpoint; frame-level NCP).  The workload's fault-free wire events are enumerated and one run is made per "
+        "(failure kind: ERROR codes, non-software RSTACK codes, silent NCP, connection_lost(OSError), EOF) x (wire "
+        "event index) x (delivered before / after that event arrives), plus failures placed in the loop iteration "
+        "in which a pending ACK / command / reset timer of the host expires.  Oracle: with an application callback "
+        "registered a '_reset_controller_application' callback is observed (for silence: once a DATA frame went "
+        "through its retry budget), a command issued afterwards raises EzspError in zero virtual time and no "
+        "frame is written, every call terminates within EZSP_CMD_TIMEOUT + the ACK budget (+RESET_TIMEOUT), the "
+        "loop never runs dry with a call pending, and a deliberate close produces no request.",
+        "Trusted: schedule model for connection loss; a closed transport reports nothing further; timeouts read "
+        "from the tree.",
+        "DESIGN.md 3/C10",
+    )
